@@ -20,11 +20,11 @@ func init() {
 				st, rs, ord = "1..5", "1..3", "MaxCount 2..4 full, then 0..3"
 			}
 			return map[string]string{
-				"configuration": "MaxSize in {0 (unlimited), 2, 4}, MaxElementSize in {0, 1, 3}, MaxCount in {0, 1, 2}, EnableLRU on/off, OnDelete nil or recording: all 108 combinations",
-				"keys/values":   "keys of 0..1 symbolic bytes (values 0..2 so that collisions are decided by the solver), values of 0..2 arbitrary bytes",
-				"histories":     st + " operations over Set/Get/Del/Clear, Stats checked after each",
+				"configuration":  "MaxSize in {0 (unlimited), 2, 4}, MaxElementSize in {0, 1, 3}, MaxCount in {0, 1, 2}, EnableLRU on/off, OnDelete nil or recording: all 108 combinations",
+				"keys/values":    "keys of 0..1 symbolic bytes (values 0..2 so that collisions are decided by the solver), values of 0..2 arbitrary bytes",
+				"histories":      st + " operations over Set/Get/Del/Clear, Stats checked after each",
 				"eviction order": ord + " re-ordering operations (Get / replacing Set / Del of a symbolic live key), then 1..2 fresh keys; results, Stats, survivors and the OnDelete log against the model",
-				"re-entrancy":   rs + " Sets on LRU caches (MaxCount 1..2, MaxSize 0 or 3) whose OnDelete performs one arbitrary Set/Get/Del/Stats on the cache (at most two per outer call, nested evictions only recorded)",
+				"re-entrancy":    rs + " Sets on LRU caches (MaxCount 1..2, MaxSize 0 or 3) whose OnDelete performs one arbitrary Set/Get/Del/Stats on the cache (at most two per outer call, nested evictions only recorded)",
 			}
 		},
 		Outside:     []string{"sizes near the uint range (overflow of size+addSize)", "longer histories, longer keys/values", "hit/miss counters beyond int32", "callbacks that refill the cache on every eviction (unbounded by construction)", "inductive step from an arbitrary internal state (not built)"},
